@@ -608,3 +608,226 @@ Proof.
   specialize (E c (strip_0x_keeps r c Hin H48 H120 H88 H95)).
   rewrite Hrun in E. discriminate.
 Qed.
+
+(** ------------------------------------------------------------------ float literals in repr format
+    [sign] digits [ '.' digits ] [ 'e' ('+'|'-') digits ]   --   float() returns the correctly rounded
+    double ([dec_to_f64]) of the decimal number the literal denotes. *)
+
+Definition frac_str (fp : option str) : str :=
+  match fp with Some f => 46%N :: f | None => [] end.
+Definition exp_str (ex : option (bool * str)) : str :=
+  match ex with
+  | Some (eneg, ed) => 101%N :: (if eneg then 45%N else 43%N) :: ed
+  | None => []
+  end.
+Definition float_lit (neg : bool) (ip : str) (fp : option str) (ex : option (bool * str)) : str :=
+  (if neg then [45%N] else []) ++ ip ++ frac_str fp ++ exp_str ex.
+
+Definition digits_ok (ds : str) : bool :=
+  match ds with [] => false | _ :: _ => all_dig dec_val ds end.
+Definition float_lit_ok (ip : str) (fp : option str) (ex : option (bool * str)) : bool :=
+  digits_ok ip && match fp with Some f => digits_ok f | None => true end
+               && match ex with Some (_, ed) => digits_ok ed | None => true end.
+
+(** the number denoted:  (ip.fp) * 10^(+-ed)  =  mant * 10^(e - #fp), rounded to binary64 *)
+Definition float_lit_val (neg : bool) (ip : str) (fp : option str) (ex : option (bool * str)) : fval :=
+  let f := match fp with Some f => f | None => [] end in
+  let mant := (dvalue dec_val 10 ip 0 * pow10 (Z.of_nat (length f)) + dvalue dec_val 10 f 0)%Z in
+  let e := match ex with
+           | Some (eneg, ed) =>
+               let ev := dvalue dec_val 10 ed 0 in
+               apply_sign eneg (if (100000 <? ev)%Z then 100000%Z else ev)
+           | None => 0%Z
+           end in
+  dec_to_f64 neg mant (length ip + length f) (e - Z.of_nat (length f)).
+
+(** the numeric part of float(): everything after the sign and the inf/nan tests *)
+Definition py_float_num (neg : bool) (r : str) : res fval :=
+  let '(ip, ipn, r1) := match digit_part dec_val 10 r with
+                        | Some x => x
+                        | None => (0%Z, 0%nat, r)
+                        end in
+  let '(fp, fpn, r2) := match r1 with
+                        | [] => (0%Z, 0%nat, r1)
+                        | c :: t => if N.eqb c 46
+                                    then match digit_part dec_val 10 t with
+                                         | Some x => x
+                                         | None => (0%Z, 0%nat, t)
+                                         end
+                                    else (0%Z, 0%nat, r1)
+                        end in
+  if Nat.eqb (ipn + fpn) 0 then Err EValue
+  else
+    let mant := (ip * pow10 (Z.of_nat fpn) + fp)%Z in
+    let finish (e : Z) := Ok (dec_to_f64 neg mant (ipn + fpn) (e - Z.of_nat fpn)) in
+    match r2 with
+    | [] => finish 0%Z
+    | c :: t =>
+        if N.eqb c 101 || N.eqb c 69 then
+          let '(eneg, t') := split_sign t in
+          match digit_part dec_val 10 t' with
+          | Some (ev, _, []) =>
+              let ev' := if (100000 <? ev)%Z then 100000%Z else ev in
+              finish (apply_sign eneg ev')
+          | _ => Err EValue
+          end
+        else Err EValue
+    end.
+
+Lemma py_float_unfold s :
+  py_float s =
+  let '(neg, r) := split_sign (py_strip s) in
+  let lr := lower_str r in
+  if str_eqb lr [105; 110; 102]%N || str_eqb lr [105; 110; 102; 105; 110; 105; 116; 121]%N then Ok (FInf neg)
+  else if str_eqb lr [110; 97; 110]%N then Ok FNan
+  else py_float_num neg r.
+Proof. reflexivity. Qed.
+
+Lemma digits_ok_facts ds : digits_ok ds = true -> ds <> [] /\ all_dig dec_val ds = true.
+Proof. destruct ds; [discriminate|]. intros H. split; [discriminate | exact H]. Qed.
+
+Lemma digit_to_lower c : is_digit c = true -> to_lower c = c.
+Proof.
+  intros H. apply is_digit_cases in H.
+  repeat (destruct H as [-> | H]; [reflexivity|]). subst c; reflexivity.
+Qed.
+
+Lemma digit_head_not_word c r w0 w :
+  is_digit c = true -> is_digit w0 = false -> str_eqb (lower_str (c :: r)) (w0 :: w) = false.
+Proof.
+  intros Hc Hw. unfold lower_str. cbn [map str_eqb]. rewrite (digit_to_lower c Hc).
+  destruct (N.eqb_spec c w0) as [->|_]; [congruence | reflexivity].
+Qed.
+
+Lemma stops_frac_exp fp ex : stops dec_val (frac_str fp ++ exp_str ex).
+Proof.
+  destruct fp as [f|]; [cbn; split; [reflexivity | discriminate]|].
+  destruct ex as [[eneg ed]|]; [cbn; split; [reflexivity | discriminate] | exact I].
+Qed.
+
+Lemma stops_exp ex : stops dec_val (exp_str ex).
+Proof. destruct ex as [[eneg ed]|]; [cbn; split; [reflexivity | discriminate] | exact I]. Qed.
+
+Lemma py_float_num_lit neg ip fp ex :
+  float_lit_ok ip fp ex = true ->
+  py_float_num neg (ip ++ frac_str fp ++ exp_str ex) = Ok (float_lit_val neg ip fp ex).
+Proof.
+  unfold float_lit_ok. intros H. apply andb_true_iff in H as [H Hex]. apply andb_true_iff in H as [Hip Hfp].
+  destruct (digits_ok_facts ip Hip) as [Hne Hd].
+  unfold py_float_num.
+  rewrite (digit_part_digits dec_val 10 ip _ Hne Hd (stops_frac_exp fp ex)). cbv beta iota.
+  assert (Hlen : Nat.eqb (length ip + length (match fp with Some f => f | None => [] end)) 0 = false).
+  { apply Nat.eqb_neq. destruct ip; [congruence | cbn [length]; lia]. }
+  assert (Htail : forall (ipv : Z) (fpv : Z) (fpn : nat),
+    fpn = length (match fp with Some f => f | None => [] end) ->
+    fpv = dvalue dec_val 10 (match fp with Some f => f | None => [] end) 0 ->
+    (let mant := (dvalue dec_val 10 ip 0 * pow10 (Z.of_nat fpn) + fpv)%Z in
+     let finish (e : Z) := Ok (dec_to_f64 neg mant (length ip + fpn) (e - Z.of_nat fpn)) in
+     match exp_str ex with
+     | [] => finish 0%Z
+     | c :: t =>
+         if N.eqb c 101 || N.eqb c 69 then
+           let '(eneg, t') := split_sign t in
+           match digit_part dec_val 10 t' with
+           | Some (ev, _, []) =>
+               let ev' := if (100000 <? ev)%Z then 100000%Z else ev in
+               finish (apply_sign eneg ev')
+           | _ => Err EValue
+           end
+         else Err EValue
+     end) = Ok (float_lit_val neg ip fp ex)).
+  { intros ipv fpv fpn -> ->. unfold float_lit_val. cbv zeta.
+    destruct ex as [[eneg ed]|]; [|reflexivity].
+    destruct (digits_ok_facts ed Hex) as [Hne' Hd'].
+    cbn [exp_str]. change (N.eqb 101 101 || N.eqb 101 69) with true. cbv beta iota.
+    assert (Hsp : split_sign ((if eneg then 45%N else 43%N) :: ed) = (eneg, ed)) by (destruct eneg; reflexivity).
+    rewrite Hsp, (digit_part_digits_nil dec_val 10 ed Hne' Hd'). reflexivity. }
+  destruct fp as [f|].
+  - destruct (digits_ok_facts f Hfp) as [Hnef Hdf].
+    cbn [frac_str app]. change (N.eqb 46 46) with true. cbv beta iota.
+    rewrite (digit_part_digits dec_val 10 f _ Hnef Hdf (stops_exp ex)). cbv beta iota.
+    rewrite Hlen. apply (Htail 0%Z); reflexivity.
+  - cbn [frac_str app]. destruct ex as [[eneg ed]|].
+    + cbn [exp_str]. change (N.eqb 101 46) with false. cbv beta iota.
+      cbn [length] in Hlen. rewrite Hlen. apply (Htail 0%Z 0%Z 0 eq_refl eq_refl).
+    + cbn [exp_str]. cbn [length] in Hlen. rewrite Hlen. apply (Htail 0%Z 0%Z 0 eq_refl eq_refl).
+Qed.
+
+Definition lit_char (c : N) : bool :=
+  is_digit c || N.eqb c 45 || N.eqb c 46 || N.eqb c 101 || N.eqb c 43.
+
+Lemma lit_char_no_space c : lit_char c = true -> py_isspace c = false.
+Proof.
+  unfold lit_char. rewrite !orb_true_iff, !N.eqb_eq. intros [[[[H | ->] | ->] | ->] | ->]; try reflexivity.
+  now apply digit_not_space.
+Qed.
+
+Lemma all_dig_lit ds : all_dig dec_val ds = true -> forallb lit_char ds = true.
+Proof.
+  unfold all_dig. rewrite !forallb_forall. intros H x Hx. specialize (H x Hx).
+  destruct (dec_val x) eqn:E; [|discriminate]. unfold lit_char. now rewrite (dec_val_digit _ _ E).
+Qed.
+
+Lemma float_lit_chars neg ip fp ex :
+  float_lit_ok ip fp ex = true -> forallb lit_char (float_lit neg ip fp ex) = true.
+Proof.
+  unfold float_lit_ok. intros H. apply andb_true_iff in H as [H Hex]. apply andb_true_iff in H as [Hip Hfp].
+  unfold float_lit. rewrite !forallb_app.
+  rewrite (all_dig_lit ip (proj2 (digits_ok_facts ip Hip))).
+  assert (H1 : forallb lit_char (if neg then [45%N] else []) = true) by (destruct neg; reflexivity).
+  assert (H2 : forallb lit_char (frac_str fp) = true).
+  { destruct fp as [f|]; [|reflexivity]. cbn [frac_str forallb].
+    now rewrite (all_dig_lit f (proj2 (digits_ok_facts f Hfp))). }
+  assert (H3 : forallb lit_char (exp_str ex) = true).
+  { destruct ex as [[eneg ed]|]; [|reflexivity]. cbn [exp_str forallb].
+    rewrite (all_dig_lit ed (proj2 (digits_ok_facts ed Hex))). destruct eneg; reflexivity. }
+  now rewrite H1, H2, H3.
+Qed.
+
+(** float(literal) = the correctly rounded double of the number the literal denotes *)
+Theorem py_float_lit neg ip fp ex :
+  float_lit_ok ip fp ex = true ->
+  py_float (float_lit neg ip fp ex) = Ok (float_lit_val neg ip fp ex).
+Proof.
+  intros H. rewrite py_float_unfold.
+  assert (Hs : no_space (float_lit neg ip fp ex) = true).
+  { apply (forallb_forall _ _). intros x Hx.
+    pose proof (float_lit_chars neg ip fp ex H) as Hc. rewrite forallb_forall in Hc.
+    now rewrite (lit_char_no_space x (Hc x Hx)). }
+  rewrite (py_strip_no_space _ Hs).
+  pose proof H as H0. unfold float_lit_ok in H0. apply andb_true_iff in H0 as [H0 _].
+  apply andb_true_iff in H0 as [Hip _].
+  destruct ip as [|c ip']; [discriminate|].
+  assert (Hc : is_digit c = true).
+  { cbn [digits_ok all_dig forallb] in Hip. apply andb_true_iff in Hip as [Hc _].
+    destruct (dec_val c) eqn:E; [|discriminate]. now apply dec_val_digit in E. }
+  assert (Hsp : split_sign (float_lit neg (c :: ip') fp ex) = (neg, (c :: ip') ++ frac_str fp ++ exp_str ex)).
+  { unfold float_lit. destruct neg; [reflexivity|]. cbn [app]. now apply split_sign_digit. }
+  rewrite Hsp. cbv beta iota zeta. cbn [app].
+  rewrite !(digit_head_not_word c _ _ _ Hc) by reflexivity. cbn [orb].
+  exact (py_float_num_lit neg (c :: ip') fp ex H).
+Qed.
+
+(** with a fraction or an exponent the literal carries a float marker *)
+Definition has_frac_or_exp (fp : option str) (ex : option (bool * str)) : bool :=
+  match fp with
+  | Some _ => true
+  | None => match ex with Some _ => true | None => false end
+  end.
+
+Lemma float_lit_marker neg ip fp ex :
+  has_frac_or_exp fp ex = true ->
+  float_marker (float_lit neg ip fp ex) = true.
+Proof.
+  intros H. unfold float_marker, float_lit. apply orb_true_iff.
+  destruct fp as [f|].
+  - left. apply existsb_exists. exists 46%N. split; [|reflexivity].
+    apply in_or_app; right. apply in_or_app; right. now left.
+  - destruct ex as [[eneg ed]|]; [|discriminate]. right.
+    apply existsb_exists. exists (if eneg then 45%N else 43%N). split; [|destruct eneg; reflexivity].
+    cbn [frac_str exp_str app].
+    destruct neg; cbn [app tl].
+    + apply in_or_app; right. cbn [In]. right. now left.
+    + destruct ip as [|c ip']; cbn [app tl]; [cbn [In]; now left|].
+      apply in_or_app; right. cbn [In]. right. now left.
+Qed.
